@@ -318,7 +318,23 @@ def history(ctx: Any) -> List[Ob]:
     rec_f = prog.func('zeroconf._history.QuestionHistory.add_question_at_time')
     rme = rec_f.params[0]
     st_h = [st for st in walk_local_ordered(rec_f.node) if isinstance(st, ast.Assign) and isinstance(st.targets[0], ast.Subscript) and self_attr(st.targets[0].value, rme) == '_history']
-    ok_rec = len(st_h) == 1 and norm(st_h[0].targets[0].slice) == rec_f.params[1] and isinstance(st_h[0].value, ast.Tuple) and [norm(x) for x in st_h[0].value.elts] == [rec_f.params[2], rec_f.params[3]]
+    # the key is the question, or is built from the question alone (which parts, and whether their spelling matters, is C20's) --
+    # and it is the key the look-up uses
+    def _key_shape(e: ast.AST, qparam: str) -> Optional[str]:
+        names_ = {x.id for x in ast.walk(e) if isinstance(x, ast.Name)}
+        if names_ != {qparam}:
+            return None
+        import copy as _cp
+
+        e2 = _cp.deepcopy(e)
+        for x in ast.walk(e2):
+            if isinstance(x, ast.Name):
+                x.id = 'Q'
+        return norm(e2)
+
+    store_shape = _key_shape(st_h[0].targets[0].slice, rec_f.params[1]) if len(st_h) == 1 else None
+    look_shapes = {_key_shape(c.args[0], h.params[1]) for c in ast.walk(h.node) if isinstance(c, ast.Call) and isinstance(c.func, ast.Attribute) and c.func.attr == 'get' and self_attr(c.func.value, hme) == '_history' and c.args} | {_key_shape(c.slice, h.params[1]) for c in ast.walk(h.node) if isinstance(c, ast.Subscript) and self_attr(c.value, hme) == '_history'}
+    ok_rec = len(st_h) == 1 and store_shape is not None and look_shapes == {store_shape} and isinstance(st_h[0].value, ast.Tuple) and [norm(x) for x in st_h[0].value.elts] == [rec_f.params[2], rec_f.params[3]]
     rcfg_h = cfg_of(rec_f.node)
     st_nodes = [n for n in rcfg_h.nodes if n.kind == 'stmt' and any(n.ast is x for x in st_h)]
     skip_h = rcfg_h.path_avoiding(rcfg_h.entry, lambda n: n is rcfg_h.exit, lambda n: n in st_nodes) if st_nodes else [rcfg_h.entry]
